@@ -78,6 +78,7 @@ def refreshPoint (g : Ghost) (o : ObsOp) : Except String Ghost :=
     else if !(asg.map (·.1)).Nodup then .error "assigned-set-differs-from-owned-outstanding"
     else
       let bad := asg.any (fun a =>
+        if g.unknown.contains a.1 then false else   -- request replaced under the reader: judged again from this refresh on
         match headOf g.tr a.1 with
         | none => true
         | some (f, _) =>
